@@ -142,8 +142,12 @@ func (e *G1) Unmarshal(m []byte) ([]byte, error) {
 		e.p.x, e.p.y = gfP{0}, gfP{0}
 	}
 
-	e.p.x.Unmarshal(m)
-	e.p.y.Unmarshal(m[numBytes:])
+	if err := e.p.x.Unmarshal(m); err != nil {
+		return nil, err
+	}
+	if err := e.p.y.Unmarshal(m[numBytes:]); err != nil {
+		return nil, err
+	}
 	montEncode(&e.p.x, &e.p.x)
 	montEncode(&e.p.y, &e.p.y)
 
@@ -346,10 +350,18 @@ func (e *G2) Unmarshal(m []byte) ([]byte, error) {
 	//	return nil, errors.New("bn256: not enough data")
 	//}
 
-	e.p.x.x.Unmarshal(m[0:])
-	e.p.x.y.Unmarshal(m[numBytes:])
-	e.p.y.x.Unmarshal(m[2*numBytes:])
-	e.p.y.y.Unmarshal(m[3*numBytes:])
+	if err := e.p.x.x.Unmarshal(m[0:]); err != nil {
+		return nil, err
+	}
+	if err := e.p.x.y.Unmarshal(m[numBytes:]); err != nil {
+		return nil, err
+	}
+	if err := e.p.y.x.Unmarshal(m[2*numBytes:]); err != nil {
+		return nil, err
+	}
+	if err := e.p.y.y.Unmarshal(m[3*numBytes:]); err != nil {
+		return nil, err
+	}
 	montEncode(&e.p.x.x, &e.p.x.x)
 	montEncode(&e.p.x.y, &e.p.x.y)
 	montEncode(&e.p.y.x, &e.p.y.x)
